@@ -246,6 +246,38 @@ def atomic_job(j):
     return dict(viols=v, harness=False)
 
 
+def rot_job(j):
+    """one copy's .tmp silently changes on the medium right after it was flushed: the re-read must notice, the command must fail
+    and no configured copy may be replaced by anything but a complete old or complete new version"""
+    cfg, saved, cmd, which, versions, seed = j
+    L = X.materialize(cfg, saved, seed)
+    paths = L.content_paths()
+    rule = ";".join("%s.tmp:fsync:0" % paths[i] for i in which)
+    res = L.run(cmd[0], *cmd[1:], env={"VP_ROT": rule})
+    where = "%s with copy %s rotting after its flush" % (" ".join(cmd), "+".join(str(i) for i in which))
+    rotted = [e for e in res.trace if e.call == "ROT"]
+    if len(rotted) < len(which):
+        return dict(viols=[dict(kind="harness-rot-not-injected", where=where, rc=res.rc)], harness=True)
+    v = []
+    if res.rc == 0:
+        v.append(dict(kind="damaged-new-copy-accepted", where=where))
+    for p in paths:
+        try:
+            data = open(p, "rb").read()
+        except FileNotFoundError:
+            v.append(dict(kind="content-copy-missing", where=where, copy=os.path.relpath(p, L.root)))
+            continue
+        if vkey(data) not in versions:
+            v.append(dict(kind="content-copy-neither-old-nor-new", where=where, copy=os.path.relpath(p, L.root), size=len(data)))
+    if not v:
+        # and the user's next command brings every copy to the same complete version
+        r2 = L.run("sync")
+        raws = {open(p, "rb").read() if os.path.exists(p) else None for p in paths}
+        if r2.rc != 0 or len(raws) != 1:
+            v.append(dict(kind="copies-differ-after-next-successful-sync" if r2.rc == 0 else "next-sync-fails", where=where, rc=r2.rc))
+    return dict(viols=v, harness=False)
+
+
 def run(ctx):
     tier = ctx.tier
     ctx.set("rule", "part 1: per content shape and command, every single-bit flip, every truncation length, every byte set to "
@@ -334,6 +366,19 @@ def run(ctx):
                     L0.restore(saved)
                     crash.run_killed(L0, cmd[0], cmd[1:], e.k, "after")
                     versions.add(vkey(L0.content_bytes()))
+        # part 3: silent damage of a freshly flushed copy (every non-empty subset of the copies, up to 7 subsets of size 1 and 2)
+        n = len(cfg.contents)
+        subsets = [(i,) for i in range(n)] + [(i, k) for i in range(n) for k in range(i + 1, n)]
+        rjobs = [(cfg, saved, cmd, w, versions, ctx.seed) for w in subsets[:12]]
+        for j, r in par.pmap(rot_job, rjobs, deadline=ctx.deadline):
+            evals += 1
+            if r["harness"]:
+                raise RuntimeError("harness problem %r" % r["viols"])
+            ctx.nontrivial((label, "rot", j[3]))
+            for v in r["viols"]:
+                ctx.violation("C09/rot/%s/%s" % (cmd[0], v["kind"]), "%s: %s (%s)" % (v["kind"], v["where"], label),
+                              dict(part="rot", cfg=cfg.describe(), ops=ops, cmd=cmd, which=list(j[3]), violation=v))
+        ctx.set("rot_cases[%s]" % label, len(rjobs))
         jobs = [(cfg, saved, cmd, k, mode, versions, ctx.seed) for k, mode in crash.kill_points(calls)]
         done = 0
         for j, r in par.pmap(atomic_job, jobs, deadline=ctx.deadline):
@@ -362,7 +407,7 @@ def replay(r):
         saved = L0.save()
         if r["part"] == "load":
             out = mut_job((cfg, saved, tuple(r["cmd"]), [tuple(r["mutation"])], 0, r.get("content_hex"), None))
-        elif r["part"] == "atomic":
+        elif r["part"] in ("atomic", "rot"):
             old = L0.content_bytes()
             versions = {vkey(old)}
             res = L0.run(r["cmd"][0], *r["cmd"][1:])
@@ -373,7 +418,10 @@ def replay(r):
                     L0.restore(saved)
                     crash.run_killed(L0, r["cmd"][0], r["cmd"][1:], e.k, "after")
                     versions.add(vkey(L0.content_bytes()))
-            out = atomic_job((cfg, saved, tuple(r["cmd"]), r["k"], r["mode"], versions, 0))
+            if r["part"] == "rot":
+                out = rot_job((cfg, saved, tuple(r["cmd"]), tuple(r["which"]), versions, 0))
+            else:
+                out = atomic_job((cfg, saved, tuple(r["cmd"]), r["k"], r["mode"], versions, 0))
         else:
             return False
     for v in out["viols"]:
